@@ -40,6 +40,15 @@ type verifWMc struct {
 	sym    string
 	name   string
 	shape  string
+	// metadata the token contract reported before its last change (nil: never changed) and the answer it gave at the start
+	prev *verifWMeta
+	row0 map[string]interface{}
+}
+
+type verifWMeta struct {
+	dec  int
+	sym  string
+	name string
 }
 
 // what an attestation payload claims
@@ -71,6 +80,7 @@ type verifWEvent struct {
 	seq        uint64 // ground truth of the sequence field (other families: the uid)
 	senderB    []byte // ground truth of the sender field
 	uidInNonce bool
+	attOK      int // attestation-shaped event: 1 / 2 = its metadata did / did not equal what the token contract reported when the poll validated it
 	txid       string // the tx id string the node reports for the event on the polling path
 }
 
@@ -136,6 +146,12 @@ type verifWSim struct {
 	quiet     bool
 	nreqTotal int
 	free      *verifWFree // non-nil: free-running mode (zz_verifw_run_test.go), no scripted polls
+	gates     map[string]*verifWGate // is-block-in-main-chain of this block hash waits (once) until the gate is opened
+}
+
+type verifWGate struct {
+	open    chan struct{}
+	reached chan struct{} // closed when the gated request has arrived
 }
 
 func verifWNewSim(gov string) *verifWSim {
@@ -235,6 +251,13 @@ func (s *verifWSim) ServeHTTP(w http.ResponseWriter, r *http.Request) {
 			verifWErr(w, 500)
 			return
 		}
+		if g := s.gates[r.URL.Query().Get("blockHash")]; g != nil {
+			delete(s.gates, r.URL.Query().Get("blockHash")) // only the first request is slow
+			close(g.reached)
+			s.mu.Unlock() // (the node keeps answering other requests meanwhile)
+			<-g.open
+			s.mu.Lock()
+		}
 		b := s.blocks[r.URL.Query().Get("blockHash")]
 		if b == nil {
 			s.badReq = append(s.badReq, "main-chain query for unknown block "+r.URL.RawQuery)
@@ -274,6 +297,9 @@ func (s *verifWSim) serveCount(w http.ResponseWriter, addr string) {
 	}
 	if s.free != nil {
 		s.free.countReqs++
+		if s.visible == len(s.log) && s.free.pagedTo >= len(s.log) {
+			s.free.countsAfterFull++ // fetchEvents is polling the count again: the last batch has been handed over
+		}
 		if !s.free.first {
 			s.free.first = true
 			close(s.free.started)
@@ -349,6 +375,10 @@ func (s *verifWSim) servePage(w http.ResponseWriter, addr string, startS string)
 		next := start
 		if end > start {
 			next = end
+		}
+		if next > f.pagedTo {
+			f.pagedTo = next
+			f.countsAfterFull = 0
 		}
 		verifWJSON(w, map[string]interface{}{"events": evs, "nextStart": next})
 		return
